@@ -670,7 +670,10 @@ def reference(spec, max_iter=80, tol=1e-7, nominal=False):
     if R.big_hit:
         R.status = 'unbounded_guard'
     R.pools = {k: p[2] for k, p in pools.items()}
+    R.pool_sets = {k: p[0] for k, p in pools.items()}
     R.ncuts = len(A)
+    R.master = {'c': cobj, 'A': np.array(A), 'b': np.array(b), 'bounds': bounds, 'tvar': tvar,
+                'osgn': osgn}
     return R
 
 
